@@ -118,7 +118,7 @@ PROPS = {
  'C01': {
   'level_text': 'Coq theorems (closed under the global context): the row pipeline of the decoder model (filter byte + reconstruction against the previous reconstructed row, reset per image/pass) equals '
                 'the specification\'s reconstruction for EVERY inflated stream, row count, pixel size and row length, with the same errors for short streams and undefined filter bytes, for both predictor '
-                'selections; the row length is a whole number of filter units for all 15 legal pairs and every width. Composes C14 (per-row filters, regenerated predictors) and C15 (Adam7 placement). The output buffer '
+                'selections; the row length is a whole number of filter units for all 15 legal pairs and every width. INTERLACED IMAGES: for all 15 legal pairs, every size and every inflated stream, when the model of the whole Adam7 decode delivers an image, its rows are the specification\'s reconstruction of the seven pass images, every pixel (x, y) holds bit for bit the pixel of the pass row the Adam7 pattern assigns to it, and every padding bit is zero (composes C14 per-row filters and C15 Adam7 placement with the glue between byte lists and images). The output buffer '
                 'of zlib.rs is modelled (Model/ZlibBuf.v over the regenerated LOOKBACK_SIZE / COMPACT_FACTOR / CHUNK_BUFFER_SIZE) and proved to deliver every produced byte exactly once in order and to keep the most recent min(total, 32768) bytes available for back-references for every split of the output over calls. Inflate itself by '
                 'contract; chunk framing by the L0 machine; unfiltering_buffer.rs is modelled (Model/UnfiltBuf.v) and proved to refine the pipeline\'s row loop for every way the inflater output arrives and every compaction; its cursors are compared with the real buffer (hook) after every row call.',
   'level_note': 'Trusted: Coq kernel; translator (Paeth predictors, filter-byte decoding, Adam7 tables); hand models of filter.rs loops / adam7.rs / the row loop of mod.rs; fdeflate implements RFC 1950/1951 '
